@@ -228,7 +228,8 @@ impl RecvHandle for MemReceiver {
                     return Poll::Ready(Ok(msg));
                 }
                 if w.closed {
-                    return Poll::Ready(Err(io_err("connection closed by peer")));
+                    // the end of the stream, reported as the real transports report it
+                    return Poll::Ready(Err(Error::Transport(std::io::Error::from(std::io::ErrorKind::UnexpectedEof))));
                 }
             }
             w.recv_waker = Some(cx.waker().clone());
